@@ -14,6 +14,7 @@ import (
 	"go.pennock.tech/tabular"
 	"go.pennock.tech/tabular/json"
 	"go.pennock.tech/tabular/properties"
+	"go.pennock.tech/tabular/properties/align"
 
 	"verifharness/internal/gen"
 )
@@ -146,6 +147,7 @@ type c07Spec struct {
 	Skip0       interface{}   `json:"skipable_column0"` // nil unset
 	Skip        []interface{} `json:"skipable_columns"` // per column 1..n, nil unset
 	SetClear    bool          `json:"set_then_cleared"`
+	Aligns      []int         `json:"alignment_properties_set_on_columns_0_to_n,omitempty"` // 0 unset, 1 left, 2 right, 3 centre: belongs to other renderers and must not matter here
 	Staged      bool          `json:"staged_wrapper_reused"`
 	StageAt     int           `json:"first_render_after_rows"`
 	PreSkip     []interface{} `json:"skipable_at_first_render_column0_then_columns"`
@@ -207,6 +209,7 @@ func (s *c07Spec) render() (string, error) {
 		}
 		t.Column(n).SetProperty(properties.Skipable, v) // nil withdraws what the first render saw
 	}
+	s.setAligns(t)
 	return jw.Render()
 }
 
@@ -314,7 +317,16 @@ func (s *c07Spec) build() *tabular.ATable {
 			t.Column(i+1).SetProperty(properties.Skipable, v)
 		}
 	}
+	s.setAligns(t)
 	return t
+}
+
+func (s *c07Spec) setAligns(t tabular.Table) {
+	for n, a := range s.Aligns {
+		if a != 0 && n <= t.NColumns() {
+			t.Column(n).SetProperty(align.PropertyType, alignVals[a])
+		}
+	}
 }
 
 // expectError returns a non-empty reason when the statement requires an error.
@@ -645,6 +657,12 @@ func c07Random(c *Ctx, i int, r *gen.R) {
 		s.Skip[j] = skipv()
 	}
 	s.SetClear = r.Chance(1, 5)
+	if r.Chance(1, 4) {
+		s.Aligns = make([]int, n+1)
+		for k := range s.Aligns {
+			s.Aligns[k] = r.Intn(4)
+		}
+	}
 	// negative configurations
 	switch r.Intn(14) {
 	case 0:
